@@ -135,12 +135,13 @@ impl<T: PartialOrd + Debug> HeapSelection<T> {
             }
         }
 //@loop 1
-            invariant_except_break
+            // (loops are not isolated: what holds on the path to an exit -- the `break`, or the failed loop test -- is known after
+            // the loop, so the heap order on exit needs no loop `ensures`; the step lemmas at loopbody/loopend provide it)
+            invariant
                 // heap order from k on, except between kk and its children ...
                 forall|c: int| 1 <= c <= n && k <= par(c) && par(c) != kk ==> ge(self.heap@[par(c)], #[trigger] self.heap@[c]),
                 // ... and kk's children are dominated by kk's parent (so that moving a child up is safe)
                 forall|c: int| 1 <= c <= n && par(c) == kk && kk > k ==> ge(self.heap@[par(kk as int)], #[trigger] self.heap@[c]),
-            invariant
                 T::obeys_partial_cmp_spec(), Ordering::obeys_eq_spec(),
                 total_on(dom),
                 all_in(self.heap@, dom),
@@ -150,8 +151,6 @@ impl<T: PartialOrd + Debug> HeapSelection<T> {
                 self.heap@.to_multiset() == old(self).heap@.to_multiset(),
                 forall|i: int| 0 <= i < self.heap@.len() && !(k <= i <= n) ==> self.heap@[i] == old(self).heap@[i],
                 self.k == old(self).k, self.n == old(self).n, self.sorted == old(self).sorted,
-            ensures
-                heap_from(self.heap@, k as int, n as int),
             decreases n - kk
 //@loopbody 1
             let ghost h = self.heap@;
